@@ -770,6 +770,8 @@ var resourceCats = map[string]bool{"Font": true, "XObject": true, "ExtGState": t
 	"Pattern": true, "Shading": true, "Properties": true, "CharProcs": true, "N": true, "D": true, "R": true,
 	"Dests": true, "Colorants": true, "AP": true}
 
+var navKeys = map[string]bool{"First": true, "Last": true, "Next": true, "Prev": true, "Parent": true, "Kids": true, "P": true}
+
 type step struct {
 	key   string // dictionary key or "[]"
 	typ   string // /Type of the dictionary the key lives in
@@ -793,6 +795,9 @@ func whereOf(steps []step) string {
 	}
 	for i := start; i < len(steps); i++ {
 		k := steps[i].key
+		if navKeys[k] && i < len(steps)-1 && steps[i].typ == "" {
+			continue // links of untyped chains and trees (outline items, name tree nodes) do not name a place
+		}
 		switch {
 		case k == "[]":
 			if len(parts) > 0 && strings.HasSuffix(parts[len(parts)-1], "[]") {
